@@ -6,7 +6,8 @@
    the peer and reports the peer's verdict; H2 runs the timed calls under a virtual clock advanced
    at every point and checks that Timeout is returned only after a clock reading >= deadline. *)
 From KV Require Import Base Chan Atomic Mem Sig.
-From KV.proofs Require Import Inv StepInv Ledger Fifo Ops SigProof.
+From KV Require Import Deadline.
+From KV.proofs Require Import Inv StepInv Ledger Fifo Ops SigProof DeadlineProof.
 
 (* timeout: nothing moved - the value is destroyed or handed back in that step, the entry is gone *)
 Theorem c13_timeout_leaves_nothing_behind : forall a k o,
@@ -30,6 +31,19 @@ Proof. exact astep_conserves. Qed.
 Theorem c13_both_sides_agree : forall i s, In i sinits -> reach (snext actual_ords) i s -> safe s = true.
 Proof. exact signal_protocol_safe. Qed.
 
+(* the deadline is the first clock reading plus the duration, and Timeout is returned only after
+   a reading at or past it; the waiting loop is left exactly by such a reading (or by a peer) *)
+Theorem c13_timeout_never_before_the_deadline : forall dur re tr u,
+  trun dur re TStart tr = Some (TTimeout u) ->
+  exists t0 rest v, readings tr = t0 :: rest /\ u = (t0 + dur)%N /\ In v (readings tr) /\ (t0 + dur <= v)%N.
+Proof. exact timeout_only_after_the_deadline. Qed.
+
+Theorem c13_waiting_ends_once_the_deadline_passed : forall u v dur re,
+  (u <= v)%N -> tstep dur re (TWait u) (Now v) = Some (TExpired u).
+Proof. exact loop_exits_once_past. Qed.
+
+Print Assumptions c13_timeout_never_before_the_deadline.
+Print Assumptions c13_waiting_ends_once_the_deadline_passed.
 Print Assumptions c13_timeout_leaves_nothing_behind.
 Print Assumptions c13_peer_wins_the_race.
 Print Assumptions c13_all_or_nothing.
